@@ -37,8 +37,12 @@ class Flow:
         """A promoted constant stands for the named items it mentions (closures,
         statics, consts): expose them as synthetic constants."""
         out = [c]
-        if c is not None and "promoted" in c and c.get("uneval") == self.fn.d.get("path"):
-            proms = self.fn.d.get("promoted", [])
+        proms = None
+        if c is not None and "promoted" in c:
+            proms = self.fn.d.get("promoted_of", {}).get(c.get("uneval"))      # bodies produced by inline.inlined
+            if proms is None and c.get("uneval") == self.fn.d.get("path"):
+                proms = self.fn.d.get("promoted", [])
+        if proms is not None:
             k = c["promoted"]
             if k < len(proms):
                 for name in proms[k]:
